@@ -495,7 +495,7 @@ Qed.
 (* G5: duplex input *)
 Theorem duplex_once_in_order : forall g start stream,
   duplex_input g start stream
-  = map snd (filter (fun p => (start <? sf_id (fst p))
+  = map snd (filter (fun p => (start <? sf_id (fst p)) && (sf_ctx (fst p) =? g_ctx g)
                               && bytes_eqb (sf_topic (fst p)) (g_name g ++ suffix_send))
                     stream).
 Proof. reflexivity. Qed.
@@ -511,13 +511,22 @@ Proof. reflexivity. Qed.
 
 Theorem duplex_input_cons : forall g start f b s,
   duplex_input g start ((f, b) :: s)
-  = (if (start <? sf_id f) && bytes_eqb (sf_topic f) (g_name g ++ suffix_send)
+  = (if (start <? sf_id f) && (sf_ctx f =? g_ctx g) && bytes_eqb (sf_topic f) (g_name g ++ suffix_send)
      then [b] else [])
     ++ duplex_input g start s.
 Proof.
   intros g start f b s. unfold duplex_input. cbn [filter fst].
-  destruct ((start <? sf_id f) && bytes_eqb (sf_topic f) (g_name g ++ suffix_send));
+  destruct ((start <? sf_id f) && (sf_ctx f =? g_ctx g) && bytes_eqb (sf_topic f) (g_name g ++ suffix_send));
     reflexivity.
+Qed.
+
+(* a .send of another context never feeds the generator *)
+Theorem duplex_other_context : forall g start f b s,
+  sf_ctx f <> g_ctx g ->
+  duplex_input g start ((f, b) :: s) = duplex_input g start s.
+Proof.
+  intros g start f b s Hne. rewrite duplex_input_cons.
+  apply N.eqb_neq in Hne. rewrite Hne, andb_false_r. reflexivity.
 Qed.
 
 Theorem duplex_not_send : forall g start f b s,
@@ -537,11 +546,11 @@ Proof.
 Qed.
 
 Theorem duplex_send_after_start : forall g start f b s,
-  start < sf_id f -> sf_topic f = g_name g ++ suffix_send ->
+  start < sf_id f -> sf_ctx f = g_ctx g -> sf_topic f = g_name g ++ suffix_send ->
   duplex_input g start ((f, b) :: s) = b :: duplex_input g start s.
 Proof.
-  intros g start f b s Hlt Ht. rewrite duplex_input_cons.
-  apply N.ltb_lt in Hlt. rewrite Hlt, Ht, bytes_eqb_refl. reflexivity.
+  intros g start f b s Hlt Hc Ht. rewrite duplex_input_cons.
+  apply N.ltb_lt in Hlt. rewrite Hlt, Hc, N.eqb_refl, Ht, bytes_eqb_refl. reflexivity.
 Qed.
 
 (* each frame is fed at most once *)
@@ -551,7 +560,7 @@ Proof.
   intros g start stream. unfold duplex_input. rewrite map_length.
   induction stream as [|p s IH]; cbn [filter length].
   - lia.
-  - destruct ((start <? sf_id (fst p))
+  - destruct ((start <? sf_id (fst p)) && (sf_ctx (fst p) =? g_ctx g)
               && bytes_eqb (sf_topic (fst p)) (g_name g ++ suffix_send)); cbn [length]; lia.
 Qed.
 
@@ -627,8 +636,8 @@ Example ex_duplex :
       (mkSF 20 2 [103;46;115;101;110;100] None, [2]);   (* the start id itself: ignored *)
       (mkSF 21 2 [103;46;115;101;110;100] None, [3]);
       (mkSF 22 2 [103;46;114;101;99;118] None, [4]);    (* not .send *)
-      (mkSF 23 7 [103;46;115;101;110;100] None, [5]) ]  (* other context: still fed *)
-  = [[3]; [5]].
+      (mkSF 23 7 [103;46;115;101;110;100] None, [5]) ]  (* other context: not fed *)
+  = [[3]].
 Proof. vm_compute. reflexivity. Qed.
 
 (* ------------------------------------------------------------------------ *)
